@@ -338,7 +338,10 @@ func c15(c *Ctx) {
 		ex := map[string]string{p.typ + ".state": "protobuf runtime field", p.typ + ".sizeCache": "protobuf runtime field", p.typ + ".unknownFields": "protobuf runtime field"}
 		c.fieldsReadKeyed(r, lastSeg(p.fn), t, []*ssa.Function{f}, ex)
 	}
-	for _, p := range []struct{ fn string; getters []string }{
+	for _, p := range []struct {
+		fn      string
+		getters []string
+	}{
 		{"pkg/api/schema.KVMetadataToProto", []string{"Deleted", "IsExpirable", "NonIndexable"}},
 		{"pkg/api/schema.TxMetadataToProto", []string{"GetTruncatedTxID", "Extra"}},
 	} {
@@ -357,7 +360,9 @@ func c15(c *Ctx) {
 		}
 		// nothing is converted to "no metadata" except no metadata: a nil result is returned only on the md == nil edge
 		// (metadata is covered by the entry digest: a non-empty attribute set that travels as nil changes Eh and Alh)
-		isNilArg := whenCond(true, func(a string) bool { return strings.Contains(a, "param:") && strings.Contains(a, "nil") && strings.Contains(a, " == ") })
+		isNilArg := whenCond(true, func(a string) bool {
+			return strings.Contains(a, "param:") && strings.Contains(a, "nil") && strings.Contains(a, " == ")
+		})
 		q := &pathQ{fn: f, fromEntry: true, to: func(in ssa.Instruction) bool {
 			rt, ok := in.(*ssa.Return)
 			if !ok || len(rt.Results) != 1 {
@@ -372,8 +377,8 @@ func c15(c *Ctx) {
 }
 
 var c15TimestampExempt = map[string]string{
-	"embedded/sql.DecodeValueFromKey": "decodes what EncodeRawValueAsKey wrote (already normalised when encoded)",
-	"embedded/sql.(*dateTruncFn).Apply":  "truncates an existing Timestamp to a coarser unit",
+	"embedded/sql.DecodeValueFromKey":   "decodes what EncodeRawValueAsKey wrote (already normalised when encoded)",
+	"embedded/sql.(*dateTruncFn).Apply": "truncates an existing Timestamp to a coarser unit",
 }
 
 func sameSet(a, b map[string]bool) bool {
